@@ -959,6 +959,10 @@ impl LightClientProtocol {
                 .start_number(real_start_number.pack())
                 .difficulty_boundary(start_total_difficulty.pack())
         } else {
+            // (more blocks always have more total difficulty: nothing could be sampled)
+            if start_total_difficulty == last_total_difficulty {
+                return None;
+            }
             let (difficulty_boundary, difficulties) = sampling::sample_blocks(
                 start_number,
                 &start_total_difficulty,
